@@ -124,6 +124,10 @@ class Result(object):
         rc = 0
         if self.violations:
             os.makedirs(REPLAY_DIR, exist_ok=True)
+            with open(os.path.join(REPLAY_DIR, self.pid + "-all.json"),
+                      "w") as f:
+                json.dump([[k, d] for k, d, _ in self.violations[:5000]], f,
+                          indent=0, sort_keys=True)
             seen = set()
             keys_seen = set()
             for key, detail, replay in self.violations:
